@@ -206,9 +206,12 @@ fn judge_boot(rec: &Rec, total: u32, b: &[u8; 512]) -> Option<(String, String)> 
 /// full format on a sparse device + every check on the resulting image
 fn judge_full(rec: &Rec, total: u32) -> Option<(String, String)> {
     let len = total as u64 * rec.bps as u64;
-    let base = Arc::new(Base::Proc { len, f: Box::new(|_, out| out.fill(0)) });
+    // small volumes are formatted over garbage (0xA5): whatever formatting must initialise but does not shows up;
+    // huge ones over zeros (their zero-filled FATs would not fit in memory otherwise)
+    let garbage = len <= 64 << 20;
+    let base = Arc::new(Base::Proc { len, f: Box::new(move |_, out| out.fill(if garbage { 0xA5 } else { 0 })) });
     let (st, mut dev) = new_dev(&base);
-    st.borrow_mut().sparse_zero = true;
+    st.borrow_mut().sparse_zero = !garbage;
     st.borrow_mut().arm(None, Some(400_000_000));
     let o = rec.opts().total_sectors(total);
     let r = sess::guarded(|| fatfs::format_volume(&mut dev, o).map_err(sess::ek));
@@ -271,6 +274,15 @@ fn judge_full(rec: &Rec, total: u32) -> Option<(String, String)> {
             if s.read_vec(g.fat_off(c), g.fat_bytes() as usize) != c0 {
                 return Some(("C06/accepted/fat-copies-differ".into(), ctx));
             }
+        }
+    }
+    // the whole root directory (fixed area, or the FAT32 root cluster) is initialised
+    {
+        let (off, n) = if g.width == 32 { (g.cluster_off(g.root_cluster), g.cluster_size()) } else { (g.root_off(), g.root_dir_sectors * g.bps as u64) };
+        let bytes = s.read_vec(off, n as usize);
+        let start = if rec.label { 32 } else { 0 };
+        if let Some(p) = bytes[start..].iter().position(|b| *b != 0) {
+            return Some(("C06/accepted/root-directory-not-zeroed".into(), format!("{ctx}: byte {} of the root directory area is {:#04x}", p + start, bytes[p + start])));
         }
     }
     if g.width == 32 {
